@@ -38,6 +38,9 @@ type world struct {
 	pdInj  map[int][]string
 	splits map[string]bool
 	total  int
+	faults []Fault
+	faultN map[string]int
+	cancel context.CancelFunc
 	visOn  bool
 	visN   int
 	visInj []VisInj
@@ -224,6 +227,11 @@ func (g *gate) SendRequest(ctx context.Context, addr string, req *tikvrpc.Reques
 		w.logEv(ev)
 		return resp, err
 	}
+	if len(w.faults) > 0 {
+		if resp := w.fault(req); resp != nil {
+			return resp, nil
+		}
+	}
 	switch req.Type {
 	case tikvrpc.CmdScanLock:
 		n := w.nextRPC()
@@ -374,6 +382,47 @@ func (g *gate) SendRequest(ctx context.Context, addr string, req *tikvrpc.Reques
 	return g.Client.SendRequest(ctx, addr, req, timeout)
 }
 
+// fault answers the request with an injected error if one is due (nil = serve normally)
+func (w *world) fault(req *tikvrpc.Request) *tikvrpc.Response {
+	kind := map[tikvrpc.CmdType]string{tikvrpc.CmdScanLock: "scan", tikvrpc.CmdResolveLock: "resolve", tikvrpc.CmdCheckTxnStatus: "check",
+		tikvrpc.CmdPessimisticRollback: "pessrb"}[req.Type]
+	if kind == "" {
+		return nil
+	}
+	w.mu.Lock()
+	defer w.mu.Unlock()
+	if w.faultN == nil {
+		w.faultN = map[string]int{}
+	}
+	w.faultN[kind]++
+	if kind == "scan" || kind == "resolve" {
+		w.faultN["gated"]++
+	}
+	ke := &kvrpcpb.KeyError{Abort: "verif: injected key error"}
+	for _, f := range w.faults {
+		switch {
+		case f.Kind == "cancel" && (kind == "scan" || kind == "resolve") && w.faultN["gated"] == f.At:
+			w.events = append(w.events, Event{T: "fault", S: "cancel", N: f.At})
+			if w.cancel != nil {
+				w.cancel()
+			}
+		case f.Kind == kind+"_keyerr" && w.faultN[kind] == f.At:
+			w.events = append(w.events, Event{T: "fault", S: f.Kind, N: f.At})
+			switch kind {
+			case "scan":
+				return &tikvrpc.Response{Resp: &kvrpcpb.ScanLockResponse{Error: ke}}
+			case "resolve":
+				return &tikvrpc.Response{Resp: &kvrpcpb.ResolveLockResponse{Error: ke}}
+			case "check":
+				return &tikvrpc.Response{Resp: &kvrpcpb.CheckTxnStatusResponse{Error: ke}}
+			case "pessrb":
+				return &tikvrpc.Response{Resp: &kvrpcpb.PessimisticRollbackResponse{Errors: []*kvrpcpb.KeyError{ke}}}
+			}
+		}
+	}
+	return nil
+}
+
 type pdGate struct {
 	pd.Client
 	w *world
@@ -423,7 +472,7 @@ func newWorld(c *Case) (*world, error) {
 		return nil, err
 	}
 	storeID, _, _ := mocktikv.BootstrapWithSingleStore(cluster)
-	w := &world{cluster: cluster, rpc: rpc, storeID: storeID, inj: map[int][]string{}, pdInj: map[int][]string{}, splits: map[string]bool{}, n2: n2Active, n1: n1Active && !c.Raw}
+	w := &world{cluster: cluster, rpc: rpc, storeID: storeID, inj: map[int][]string{}, pdInj: map[int][]string{}, splits: map[string]bool{}, n2: n2Active, n1: n1Active && !c.Raw, faults: c.Faults}
 	for _, s := range c.Splits {
 		w.split(unhx(s))
 	}
